@@ -1180,7 +1180,9 @@ class ModelMixin:
     event_wait_may_interrupt = True
 
     def m_event_is_set(self, recv, h, args, kwargs, st, line):
-        return [ok(z3.Bool(fresh_name('is_set')), st)]
+        r = z3.Bool(fresh_name('is_set'))      # whatever other threads made of it
+        st.trace.append(Event('ext', 'event.is_set', recv, (), {}, r, line, st.held))
+        return [ok(r, st)]
 
     def m_event_clear(self, recv, h, args, kwargs, st, line):
         st.trace.append(Event('ext', 'event.clear', recv, line=line, held=st.held))
